@@ -25,7 +25,7 @@ def cases(ctx):
         while len(runs) < n:
             runs += [G.valid_pattern(dt, 1)] * rng.range(1, 12) + [G.random_pattern(rng, dt)]
         out.append({"dt": dt, "level": 8, "order": 0, "gcds": 1, "chunks": [runs[:n]], "kinds": ["short-runs"], "drain": 0})
-    for _ in range(150 if ctx.quick else 2500):
+    for _ in range(800 if ctx.quick else 8000):
         out.append(S.enc_case(rng))
     return out
 
